@@ -8,8 +8,11 @@ import json, os, sys, time, hashlib, re, traceback, fnmatch
 VERIF = os.path.dirname(os.path.dirname(os.path.abspath(__file__)))
 REPO = os.environ.get('VERIF_REPO', '/repo')
 # runs against seeded changes (tools/seedtest.py) redirect evidence and replays so that the committed evidence only ever comes from /repo itself
-EVID = os.environ.get('VERIF_EVIDENCE_DIR') or os.path.join(VERIF, 'evidence')
-REPLAYS = os.environ.get('VERIF_REPLAYS_DIR') or os.path.join(VERIF, 'replays')
+# VERIF_ONLY=<substring> (debugging aid): run only the programs whose label contains it; such partial runs never touch the committed evidence
+ONLY = os.environ.get('VERIF_ONLY') or None
+_scratch = os.path.join(os.environ.get('TMPDIR', '/tmp'), 'verif-partial') if ONLY else None
+EVID = os.environ.get('VERIF_EVIDENCE_DIR') or (os.path.join(_scratch, 'evidence') if ONLY else os.path.join(VERIF, 'evidence'))
+REPLAYS = os.environ.get('VERIF_REPLAYS_DIR') or (os.path.join(_scratch, 'replays') if ONLY else os.path.join(VERIF, 'replays'))
 KNOWN = os.path.join(VERIF, 'known_findings.json')
 
 EXIT_OK, EXIT_VIOLATION, EXIT_HARNESS = 0, 1, 2
